@@ -167,8 +167,11 @@ def shard_plays(ctx, payload):
         # one play in six hands the bar heights over as floats (1 cm and 5 cm steps): callers do, and 2.01 is not
         # exactly representable - the rules are about the heights, not about their binary representation
         fh = (i % 6 == 5)
-        hjplay.random_play(rng.randrange, on_call, noise=20, nmin=1, float_heights=fh, tail=40)
+        ib = (i % 8 == 3)           # one play in eight uses numbers as bibs (start lists usually do)
+        hjplay.random_play(rng.randrange, on_call, noise=20, nmin=1, float_heights=fh, tail=40, int_bibs=ib)
         ctx.label('play-float-heights' if fh else 'play')
+        if ib:
+            ctx.label('play-number-bibs')
 
 
 def make_machine(ctx):
